@@ -446,8 +446,11 @@ check_for_constructor(CPPScope *current_scope, CPPScope *global_scope) {
           }
         }
 
+        // A constructor has no return type; an assignment operator keeps the
+        // one it was declared with.
         _type = CPPType::new_type
-          (new CPPFunctionType(void_type, func->_parameters, flags));
+          (new CPPFunctionType((flags & CPPFunctionType::F_constructor) ? void_type : func->_return_type,
+                               func->_parameters, flags));
 
       } else if (method_name == "~" + class_name) {
         CPPType *void_type = CPPType::new_type
